@@ -218,7 +218,6 @@ func genC07Bad(t *rapid.T) c07BadCase {
 	return c07BadCase{Text: text, Class: class}
 }
 
-
 func TestC07_Invalid(t *testing.T) {
 	c07Bad.rapid(t, ev.Pick(25_000, 400_000), genC07Bad)
 }
@@ -268,6 +267,21 @@ func checkC07Sib(c c07SibCase) verdict {
 	if b, err := otp.DecodeSecret(text); err != nil || !bytes.Equal(b, c.Key) {
 		return bad(true, nil, "DecodeSecret(%q) = %x, %v; want %x", text, b, err, c.Key)
 	}
+	// the valid text goes through every entry point first (whatever any of them remembers about it is now in place)
+	p8 := &otp.Param{Digits: 8, Algorithm: otp.SHA1, Period: 30, Skew: 1}
+	tm := time.Unix(1_700_000_000, 0)
+	su, _ := otp.NewRawSuite("OCRA-1:HOTP-SHA1-6:QN08")
+	cfg := ref.OCRACfg{Raw: "OCRA-1:HOTP-SHA1-6:QN08", Digits: 6, Q: true, QFormat: 1, SessionNN: -1}
+	q := []byte("12345678")
+	codeH := ref.MustHOTP(c.Key, 7, 8, 0)
+	codeT := ref.MustHOTP(c.Key, 1_700_000_000/30, 8, 0)
+	codeO, _ := ref.OCRA(c.Key, cfg, ref.OCRAIn{Q: q})
+	otp.GenerateHOTP(text, 7, p8)
+	otp.ValidateHOTP(text, codeH, 7, p8)
+	otp.GenerateTOTP(text, tm, p8)
+	otp.ValidateTOTP(text, codeT, tm, p8)
+	otp.GenerateOCRA(text, su, otp.OCRAInput{Challenge: q})
+	otp.ValidateOCRA(text, codeO, su, otp.OCRAInput{Challenge: q})
 	bare := strings.TrimRight(strings.TrimSpace(text), "=")
 	if len(bare) < 4 {
 		return ok(false, "too-short")
@@ -289,8 +303,36 @@ func checkC07Sib(c c07SibCase) verdict {
 				return ok(false, "too-short")
 			}
 		}
-	default:
+	case 4:
 		badText = "========"[:1+c.Pos%7] + bare
+	case 5:
+		// one letter replaced by a non-ASCII letter that Unicode case mapping folds onto it (a key built with ToUpper /
+		// ToLower / EqualFold of the text treats the look-alike and the valid text as the same secret)
+		folds := map[byte]string{'S': "\u017f", 's': "\u017f", 'K': "\u212a", 'k': "\u212a", 'I': "\u0131", 'i': "\u0131"}
+		badText = ""
+		for i := 0; i < len(text); i++ {
+			j := (k + i) % len(text)
+			if f, okk := folds[text[j]]; okk {
+				badText = text[:j] + f + text[j+1:]
+				break
+			}
+		}
+		if badText == "" {
+			return ok(false, "no-foldable-letter")
+		}
+	case 6:
+		// the valid text wrapped the way it is pasted from configuration files and shells
+		w := [][2]string{{"\"", "\""}, {"'", "'"}, {"`", "`"}, {"(", ")"}, {"<", ">"}, {"[", "]"}, {"{", "}"}, {"\" ", " \""}, {" '", "' "}}[c.Pos%9]
+		badText = w[0] + text + w[1]
+	case 7:
+		// prefixes / suffixes of other notations
+		badText = []string{"0x", "b32:", "base32:", "secret=", "otpauth://", "0b", "\ufeff"}[c.Pos%7] + text
+		if c.Pos%2 == 1 {
+			badText = text + []string{";", ",", ".", "\x00", "\\n", "%3D", "\u200b"}[c.Pos%7]
+		}
+	default:
+		// blanks that are not ASCII white space INSIDE the text
+		badText = bare[:k] + []string{"\u00a0", "\u2003", "\u3000", "\u200b", "-", "_", " "}[c.Pos%7] + bare[k:]
 	}
 	labels := []string{fmt.Sprintf("kind=%d", c.Kind)}
 	if b, err := otp.DecodeSecret(badText); err == nil {
@@ -298,6 +340,22 @@ func checkC07Sib(c c07SibCase) verdict {
 	}
 	if code, err := otp.GenerateHOTP(badText, 1, nil); err == nil {
 		return bad(true, labels, "after decoding %q, GenerateHOTP(%q) produces %q", text, badText, code)
+	}
+	if code, err := otp.GenerateTOTP(badText, tm, p8); err == nil {
+		return bad(true, labels, "after using %q, GenerateTOTP(%q) produces %q", text, badText, code)
+	}
+	if code, err := otp.GenerateOCRA(badText, su, otp.OCRAInput{Challenge: q}); err == nil {
+		return bad(true, labels, "after using %q, GenerateOCRA(%q) produces %q", text, badText, code)
+	}
+	// the validators get the code of the VALID text: only a validator that took the look-alike for it accepts
+	if okk, err := otp.ValidateHOTP(badText, codeH, 7, p8); okk || err == nil {
+		return bad(true, labels, "after using %q, ValidateHOTP(%q, code of the valid text) = (%v, %v)", text, badText, okk, err)
+	}
+	if okk, err := otp.ValidateTOTP(badText, codeT, tm, p8); okk || err == nil {
+		return bad(true, labels, "after using %q, ValidateTOTP(%q, code of the valid text) = (%v, %v)", text, badText, okk, err)
+	}
+	if okk, err := otp.ValidateOCRA(badText, codeO, su, otp.OCRAInput{Challenge: q}); okk || err == nil {
+		return bad(true, labels, "after using %q, ValidateOCRA(%q, code of the valid text) = (%v, %v)", text, badText, okk, err)
 	}
 	// and the valid spelling still decodes to the same key afterwards
 	if b, err := otp.DecodeSecret(text); err != nil || !bytes.Equal(b, c.Key) {
@@ -307,12 +365,63 @@ func checkC07Sib(c c07SibCase) verdict {
 }
 
 var c07Sib = newPart("C07", "siblings",
-	"rapid: a secret (2..64 bytes, any spelling) is decoded successfully, then a malformed look-alike of the SAME text is presented ('=' or '====' inserted in the middle, a foreign character inserted, cut to an impossible length, padding in front): it must be rejected by DecodeSecret and GenerateHOTP, and the valid spelling must still decode to the same key afterwards; every case non-trivial",
+	"rapid: a secret (2..64 bytes, any spelling) is decoded successfully, then a malformed look-alike of the SAME text is presented ('=' or '====' inserted in the middle, a foreign character inserted, cut to an impossible length, padding in front, a letter replaced by a non-ASCII letter that case-folds onto it, the text wrapped in quotes / brackets, prefixed or suffixed like other notations, a non-ASCII blank or separator inside): after the valid text went through all seven entry points, the look-alike must be rejected by DecodeSecret, by the three generators and — submitted with the VALID text's code — by the three validators, and the valid spelling must still decode to the same key afterwards; every case non-trivial",
 	checkC07Sib)
 
 func TestC07_Siblings(t *testing.T) {
 	c07Sib.rapid(t, ev.Pick(15_000, 300_000), func(t *rapid.T) c07SibCase {
 		n := rapid.IntRange(3, 64).Draw(t, "n")
-		return c07SibCase{Key: rapid.SliceOfN(rapid.Byte(), n, n).Draw(t, "key"), Sp: gen.DrawSpelling(t), Kind: rapid.IntRange(0, 4).Draw(t, "kind"), Pos: rapid.IntRange(0, 500).Draw(t, "pos")}
+		return c07SibCase{Key: rapid.SliceOfN(rapid.Byte(), n, n).Draw(t, "key"), Sp: gen.DrawSpelling(t), Kind: rapid.IntRange(0, 8).Draw(t, "kind"), Pos: rapid.IntRange(0, 500).Draw(t, "pos")}
 	})
+}
+
+// Padding inside, enumerated over lengths: the canonical padded encoding of an n-byte string (n not a multiple of 5, so it
+// ends in '=') followed by more valid text. A decoder that works block-wise (256 / 512 / 1024 characters at a time, or
+// line by line) hands each block to a base32 routine as if it were a complete text and so lets padding through exactly
+// where a block ends; sweeping n puts the end of the padding on every multiple of 8 up to 1128.
+type c07PadCase struct {
+	N     int    `json:"n"`
+	Tail  string `json:"tail"`
+	Lower bool   `json:"lower"`
+	Lead  string `json:"lead"`
+}
+
+var c07Pad = newPart("C07", "padding-inside",
+	"complete: n = 1..704 (n mod 5 != 0) x the canonical padded base32 of an n-byte pattern followed by each of five valid tails (padded, unpadded, one quantum, 40 characters, 300 characters) x upper / lower case x with / without leading white space; oracle: padding in the middle must be rejected by DecodeSecret and GenerateHOTP; every case distinct and non-trivial",
+	func(c c07PadCase) verdict {
+		key := make([]byte, c.N)
+		for i := range key {
+			key[i] = byte(i*7 + c.N)
+		}
+		text := c.Lead + ref.B32Pad(key) + c.Tail
+		if c.Lower {
+			text = strings.ToLower(text)
+		}
+		labels := []string{fmt.Sprintf("padded-len-mod-256=%d", len(ref.B32Pad(key))%256)}
+		if b, err := otp.DecodeSecret(text); err == nil {
+			return bad(true, labels, "DecodeSecret accepts padding in the middle: %d characters ending in '=' followed by %q decoded to %d bytes", len(ref.B32Pad(key)), c.Tail, len(b))
+		}
+		if code, err := otp.GenerateHOTP(text, 1, nil); err == nil {
+			return bad(true, labels, "GenerateHOTP accepts padding in the middle (%d padded characters + %q): %q", len(ref.B32Pad(key)), c.Tail, code)
+		}
+		return ok(true, labels...)
+	})
+
+func TestC07_PaddingInside(t *testing.T) {
+	defer c07Pad.rec().Flush()
+	tails := []string{"AAAAAAAA", "ME======", "MZXW6YQ", strings.Repeat("GEZDGNBV", 5), strings.Repeat("MFRGGZDF", 38)[:300]}
+	i := 0
+	for n := 1; n <= 704; n++ {
+		if n%5 == 0 {
+			continue
+		}
+		for ti, tail := range tails {
+			i++
+			if !ev.Mine(i) {
+				continue
+			}
+			c07Pad.each(t, c07PadCase{N: n, Tail: tail, Lower: (n+ti)%2 == 1, Lead: []string{"", " ", "\n"}[(n+ti)%3]})
+		}
+	}
+	c07Pad.rec().Exhaustive()
 }
